@@ -77,3 +77,10 @@ Proof. intros H1 H2 H64 Hnr. rewrite !particle_status_ok by assumption. reflexiv
 
 (* data of the non-vacuity example in Properties/C03.v: a particle with identity i and status st, nothing else set *)
 Definition ex_p (i : Z) (st : Fval) : pobs := mkP i (fun a => match a with A_status => Ret st | _ => Ret NaN end).
+Lemma example_status_list :
+  match gen_particle_status [[ex_p 1 (Fin 1); ex_p 2 NaN; ex_p 3 (Fin 0)]; []; [ex_p 4 (Fin 2); ex_p 5 (Fin 1)]]
+                            (VList [VInt 1; VInt 0]) with
+  | Ok out => map (map pid) out = [[1; 3]; []; [5]]%Z
+  | Err _ => False
+  end.
+Proof. vm_compute. reflexivity. Qed.
